@@ -229,10 +229,14 @@ impl TransformerContext {
         // TODO: this logic is duplicated in `impl EventGen for SvgElement` so
         // it works in both '^' contexts and root SVG bbox generation context.
         // Can't just move this to SvgElement::bbox() as it needs ElementMap.
-        if let (Some(clip_path), Some(ref mut bbox)) = (el.get_attr("clip-path"), &mut el_bbox) {
-            let clip_id = extract_urlref(&clip_path).ok_or(SvgdxError::InvalidData(format!(
-                "Invalid clip-path attribute: {clip_path}"
-            )))?;
+        // (only a reference to a <clipPath> limits the box: `none`, basic shapes and
+        // references elsewhere are plain SVG / CSS we leave alone)
+        if let (Some(clip_id), Some(ref mut bbox)) = (
+            el.get_attr("clip-path")
+                .and_then(|clip_path| extract_urlref(&clip_path)),
+            &mut el_bbox,
+        ) {
+            let clip_path = el.get_attr("clip-path").unwrap_or_default();
             let clip_el = self
                 .get_element(&clip_id)
                 .ok_or(SvgdxError::ReferenceError(clip_id))?;
